@@ -455,6 +455,113 @@ def run_b(case):
     return out, bool(case['faults'] or case.get('refuse') or reused)
 
 
+def run_http(case):
+    """Tier B for HttpRelay: concurrent attempts against a delaying HTTP peer on loopback."""
+    from gevent.server import StreamServer
+    from slimta.relay.http import HttpRelay
+    spool.Timeout = gevent.Timeout
+    state = {'open': 0, 'max': 0, 'reqs': 0}
+
+    def handle(sock, addr):
+        state['open'] += 1
+        state['max'] = max(state['max'], state['open'])
+        try:
+            f = sock.makefile('rb')
+            while True:
+                line = f.readline()
+                if not line:
+                    return
+                hdrs = {}
+                while True:
+                    h = f.readline()
+                    if h in (b'\r\n', b''):
+                        break
+                    k, _, v = h.partition(b':')
+                    hdrs[k.strip().lower()] = v.strip()
+                body = f.read(int(hdrs.get(b'content-length', b'0')))
+                state['reqs'] += 1
+                m = re.search(br'X-Tag: (\S+)', body)
+                tag = m.group(1).decode() if m else '?'
+                gevent.sleep(case['delay'])
+                fault = case['faults'].get(tag)
+                if fault == 'thenclose':
+                    return
+                if fault == 'eod4xx':
+                    out = 'HTTP/1.1 503 Busy\r\nX-Smtp-Reply: 451; message="4.3.0 failed %s"\r\nContent-Length: 0\r\n\r\n' % tag
+                else:
+                    out = 'HTTP/1.1 200 OK\r\nX-Smtp-Reply: 250; message="2.0.0 queued %s"\r\nContent-Length: 2\r\n\r\nok' % tag
+                sock.sendall(out.encode())
+                if not case['keepalive']:
+                    return
+        except Exception:
+            pass
+        finally:
+            state['open'] -= 1
+            try:
+                sock.close()
+            except Exception:
+                pass
+    server = StreamServer(('127.0.0.1', 0), handle)
+    server.start()
+    relay = HttpRelay('http://127.0.0.1:%d/' % server.server_port, pool_size=case['size'], ehlo_as='relay.example', timeout=5,
+                      idle_timeout=case['idle'])
+    outs = []
+    desc = repr(case)
+    for i in range(case['n']):
+        env = c11.make_env(1, 'm%d' % i)
+        o = AsyncResult()
+
+        def go(env=env, o=o):
+            try:
+                o.set(('ok', relay.attempt(env, 0)))
+            except BaseException as e:
+                o.set(('exc', e))
+        outs.append(('m%d' % i, gevent.spawn(go), o))
+        gevent.sleep(case['stagger'])
+    out = []
+    try:
+        gevent.joinall([g for _, g, _ in outs], timeout=12)
+        for tag, g, o in outs:
+            if not o.ready():
+                out.append(('C19:attempt-never-returns:http', '%s: attempt %s still blocked after 12 s' % (desc, tag)))
+                break
+            kind, res = o.get()
+            text = getattr(res, 'message', None) if kind == 'ok' else getattr(getattr(res, 'reply', None), 'message', None)
+            if kind == 'exc' and not isinstance(res, RelayError):
+                out.append(('C19:attempt-raised:%s' % type(res).__name__, '%s: %s: %r' % (desc, tag, res)))
+            elif [t for t in re.findall(r'\bm\d+\b', text or '') if t != tag]:
+                out.append(('C19:result-of-another-envelope:http', '%s: attempt %s received %r' % (desc, tag, text)))
+            elif kind == 'ok' and case['faults'].get(tag):
+                out.append(('C19:failed-request-reported-delivered:http', '%s: %s' % (desc, tag)))
+            elif kind == 'exc' and not case['faults'].get(tag) and \
+                    (case['idle'] is None or (case['keepalive'] and 'thenclose' not in case['faults'].values())):
+                # (when the peer closes connections the relay keeps for re-use, a transient failure of the next request is legitimate)
+                out.append(('C19:unexplained-failure:http', '%s: attempt %s failed with %r although the peer answered it 200'
+                            % (desc, tag, getattr(res, 'reply', res))))
+        if case['size'] and state['max'] > case['size']:
+            out.append(('C19:pool-bound-exceeded:http', '%s: %d connections open at once with pool_size %d' % (desc, state['max'], case['size'])))
+    finally:
+        kill_relay(relay)
+        for _, g, _ in outs:
+            if not g.dead:
+                g.kill(block=False)
+        server.stop()
+    return out, bool(case['faults']) or case['n'] > (case['size'] or 99)
+
+
+@st.composite
+def case_http(draw):
+    n = draw(st.integers(1, 8))
+    faults = {}
+    for i in range(n):
+        f = draw(st.sampled_from([None, None, None, 'eod4xx', 'thenclose']))
+        if f:
+            faults['m%d' % i] = f
+    return {'family': 'H', 'n': n, 'size': draw(st.sampled_from([1, 2, 3, None])), 'idle': draw(st.sampled_from([None, 0.05, 1.0])),
+            'keepalive': draw(st.booleans()), 'delay': draw(st.sampled_from([0.0, 0.001, 0.005])),
+            'stagger': draw(st.sampled_from([0.0, 0.002, 0.02])), 'faults': faults}
+
+
 @st.composite
 def case_b(draw):
     n = draw(st.integers(1, 8))
@@ -486,6 +593,11 @@ def run_shard(ctx):
         ctx.record(repr(case), nt, labels=['tier=B', 'size=%s' % case['size']], case=case, failures=f)
     hyp.drive(ctx, case_b(), one_b, ctx.n(240, 4000), salt=1)
 
+    def one_h(case):
+        f, nt = run_http(case)
+        ctx.record(repr(case), nt, labels=['tier=B-http', 'size=%s' % case['size']], case=case, failures=f)
+    hyp.drive(ctx, case_http(), one_h, ctx.n(160, 3000), salt=2)
+
 
 def replay(case):
     try:
@@ -503,6 +615,12 @@ def replay(case):
                 elif a and a[0] == 'release' and len(a) == 3 and a[2] in ('deliver', 'fail', 'fail-exit', 'requeue-exit'):
                     acts.append(['release', int(a[1]), a[2]])
             return run_a(cfg, acts)[0]
+        if case.get('family') == 'H':
+            case = dict(case, n=max(1, min(8, int(case['n']))))
+            case['faults'] = dict((k, v) for k, v in case.get('faults', {}).items() if v in ('eod4xx', 'thenclose'))
+            if case.get('size') not in (1, 2, 3, None):
+                return []
+            return run_http(case)[0]
         if case.get('family') == 'B':
             case = dict(case, n=max(1, min(8, int(case['n']))))
             case['faults'] = dict((k, v) for k, v in case.get('faults', {}).items()
